@@ -113,6 +113,18 @@ def r5_cells(text, fields, recv='self'):
             text = text[:mo.start()] + fmt.format(f=recv + '.' + mo.group(1), a=arg) + text[close + 1:]
             fired += 1
 
+    # guards: `let [mut] G = recv.f.borrow[_mut]();` -- remember G; `drop(G);` only released the
+    # RefCell borrow flag, which R5 erases, so the statement is erased with it.
+    guards = re.findall(r'let\s+(?:mut\s+)?(\w+)\s*(?::[^=;]+)?=\s*' + base + r'\s*\.\s*borrow(?:_mut)?\s*\(\s*\)\s*;', mask(text))
+    for g in guards:
+        name = g[0]
+        while True:
+            m = mask(text)
+            mo = re.search(r'\b(?:std::mem::|core::mem::)?drop\(\s*%s\s*\)\s*;' % re.escape(name), m)
+            if not mo:
+                break
+            text = _del_stmt(text, mo.start(), mo.end())
+            fired += 1
     sub_call('get', '{f}')
     sub_call('set', '{f} = ({a})')
     sub_call('replace', 'core::mem::replace(&mut {f}, {a})')
